@@ -23,7 +23,8 @@ func c16(p Params) func() {
 		rec := NewRec("rec", &trace)
 		checkerRuns := 0
 		// accept_any: a checker that trusts any exchange RecvOnce reports as received (it does not look at the token)
-		verdicts := []string{"accept", "reject", "reject_with_ret", "accept_any"}
+		// panic: the checker itself fails (e.g. on a malformed credential) after it has received the token
+		verdicts := []string{"accept", "reject", "reject_with_ret", "accept_any", "panic"}
 		verdict := verdicts[vsched.Choose(len(verdicts), "verdict")]
 		renames := vsched.Choose(2, "setid") == 1
 		checker := auth.NewCheckerPlugin(func(sess auth.Session, recv auth.RecvOnce) (interface{}, *erpc.Status) {
@@ -38,6 +39,10 @@ func c16(p Params) func() {
 			}
 			if verdict == "accept_any" {
 				return "welcome", nil
+			}
+			if verdict == "panic" {
+				var credential []byte
+				_ = credential[len(token)] // index out of range
 			}
 			if token != "good" {
 				return nil, erpc.NewStatus(erpc.CodeUnauthorized, "bad token", "")
